@@ -19,6 +19,7 @@ import (
 	"github.com/fatedier/frp/pkg/msg"
 	"github.com/fatedier/frp/pkg/transport"
 	"github.com/fatedier/frp/pkg/util/limit"
+	netpkg "github.com/fatedier/frp/pkg/util/net"
 	"github.com/fatedier/frp/pkg/vnet"
 	"github.com/fatedier/frp/verif"
 )
@@ -571,5 +572,42 @@ func verif_client_SUDPProxy_InWorkConn(pxy *SUDPProxy, conn net.Conn, m *msg.Sta
 		verif.Ensures(verif.Same(verif.NthArg[any](evWrap, 0, 0), below) && verif.Same(verif.NthArg[any](evWrap, 0, 1), any(conn)), "top_of_the_stack_is_the_message_stream")
 	} else {
 		verif.Ensures(enc && verif.CalledWith("net.Conn).Close", 0, conn), "work_connection_closed_when_the_cipher_cannot_be_built")
+	}
+}
+
+// UDPProxy.InWorkConn (client; C03 "work connection replaced in the middle of
+// traffic"): every work connection gets its own pair of channels - whatever the
+// previous connection left behind (Close, at the top, closes the old pair), the
+// proxy ends up open, bound to the new connection, with a reader and a sender
+// channel that are not closed.
+//
+//verif:contract (*~/client/proxy.UDPProxy).InWorkConn
+//verif:props C03
+//verif:kinds post,pre
+func verif_client_UDPProxy_InWorkConn(pxy *UDPProxy, conn net.Conn, m *msg.StartWorkConn) {
+	verif.ResetEvents()
+	pxy.InWorkConn(conn, m)
+	if verif.Called("net.WrapReadWriteCloserToConn") {
+		verif.Ensures(!pxy.closed && pxy.readCh != nil && pxy.sendCh != nil && !verif.Closed(pxy.readCh) && !verif.Closed(pxy.sendCh), "fresh_open_channels_for_the_new_work_connection")
+		verif.Ensures(pxy.workConn == net.Conn(verif.Ret[*netpkg.WrapReadWriteCloserConn]("net.WrapReadWriteCloserToConn", 0)), "bound_to_the_new_work_connection")
+	}
+}
+
+// Manager.HandleWorkConn (C11 "never orphaned"): a work connection the server
+// started for a proxy this client has is handed to that proxy; one that names a
+// proxy the client does not (or no longer) have is closed - the user connection
+// bridged to it on the server ends at once instead of hanging without a peer.
+//
+//verif:contract (*~/client/proxy.Manager).HandleWorkConn
+//verif:props C11
+//verif:kinds post,pre
+func verif_Manager_HandleWorkConn(pm *Manager, name string, workConn net.Conn, m *msg.StartWorkConn) {
+	pw, known := pm.proxies[name]
+	verif.ResetEvents()
+	pm.HandleWorkConn(name, workConn, m)
+	if known {
+		verif.Ensures(verif.CalledWith("Wrapper).InWorkConn", 0, pw) && verif.Same(verif.NthArg[any]("Wrapper).InWorkConn", 0, 1), any(workConn)) && !verif.CalledWith("net.Conn).Close", 0, workConn), "handed_to_the_named_proxy")
+	} else {
+		verif.Ensures(verif.CalledWith("net.Conn).Close", 0, workConn) && !verif.Called("Wrapper).InWorkConn"), "connection_for_an_unknown_proxy_is_closed")
 	}
 }
